@@ -52,8 +52,16 @@ class AddonPersistence(Addon, metaclass=abc.ABCMeta):
         # just the name, because it contains also the block type name.
         self.key: str = str(self)
 
+    # True while an event() of this block is being handled
+    _persist_event_active: bool = False
+
     def event(self, etype: str|block.EventType, /, **data) -> Any:
         """Save persistent state after a possible state change."""
+        # A block may send an event to itself while handling an event (e.g. an FSM chained
+        # transition). Such nested event() sees an intermediate state. Only the outermost
+        # event() saves the state, i.e. when the whole event has been handled.
+        nested = self._persist_event_active
+        self._persist_event_active = True
         try:
             retval = super().event(etype, **data)
         except Exception:
@@ -64,7 +72,9 @@ class AddonPersistence(Addon, metaclass=abc.ABCMeta):
                 self.log_warning("Disabling persistent state due to an error")
                 self.persistent = False
             raise
-        if self.persistent and self.sync_state and self.is_initialized():
+        finally:
+            self._persist_event_active = nested
+        if not nested and self.persistent and self.sync_state and self.is_initialized():
             # (an event may leave the block uninitialized, e.g. a conditional event
             # resolved to no event; there is no state to be saved then and the state
             # saved by the previous run must be preserved until it is restored)
